@@ -45,9 +45,8 @@ class EndpointReferenceType(XMLTypeBase):
 class RelatesTo(ElementWithText):
     """Contributes one abstract [relationship] property value."""
 
-    RelationshipType: str | None = struct.AnyUriTextElement(
-        nsh.WSA.tag('RelationshipType'),
-        is_optional=True,
+    RelationshipType: str | None = struct.AnyURIAttributeProperty(
+        'RelationshipType',
         implied_py_value='http://www.w3.org/2005/08/addressing/reply')
     _props = ('RelationshipType',)
 
